@@ -303,7 +303,28 @@ func c16SparseLines(c *Ctx, fail func(kind, what string, rep map[string]interfac
 	fh, _ := os.OpenFile(file, os.O_APPEND|os.O_WRONLY, 0644)
 	fmt.Fprintln(fh, `{"id":"sparse-1","dkg_round_id":"round-b","offset":1}`)
 	fmt.Fprintln(fh, `{"id":"sparse-2","offset":2,"event":"event_only"}`)
+	fmt.Fprintln(fh, `this line is not JSON at all`)
+	fmt.Fprintln(fh, `{"id":"confused","offset":"4","data":"!!not base64!!"}`)
+	fmt.Fprintln(fh, `{"id":"claims-a-far-offset","dkg_round_id":"round-b","offset":900,"event":"event_far"}`)
 	fh.Close()
+	// a line that cannot be decoded must not make the read fail (the node's polling loop ends on such an
+	// error and its offset never passes the line), and what the reader hands out as an entry's offset
+	// must be the entry's position - the node resumes at offset+1 of the last entry it was given
+	{
+		h, _ := file_storage.NewFileStorage(file, lock)
+		ms, err := h.GetMessages(0)
+		h.Close()
+		if err != nil {
+			fail("undecodable-line-fails-the-read", "one board line that cannot be decoded makes every read of the board fail: "+err.Error(), map[string]interface{}{"lines": 6})
+		} else {
+			pos := map[string]uint64{"sparse-1": 1, "sparse-2": 2, "claims-a-far-offset": 5}
+			for _, m := range ms {
+				if want, ok := pos[m.ID]; ok && m.Offset != want {
+					fail("offset-is-not-position", fmt.Sprintf("the entry at position %d is handed out with offset %d (what the line claims)", want, m.Offset), map[string]interface{}{"id": m.ID, "position": want, "offset": m.Offset})
+				}
+			}
+		}
+	}
 	proj := func(m storage.Message) string {
 		return fmt.Sprintf("id=%s round=%s event=%s data=%q sig=%q sender=%s recipient=%s", m.ID, m.DkgRoundID, m.Event, m.Data, m.Signature, m.SenderAddr, m.RecipientAddr)
 	}
